@@ -5,7 +5,7 @@ import ast
 
 from sa.absint import MODULE_CTX
 from sa.analysis import VERSIONS, Analysis, fmt_atom, vname
-from sa.model import loc, norm_src
+from sa.model import AnalysisError, loc, norm_src
 
 API = ["from_code", "to_code", "normalize", "to_json", "from_json"]
 MEMO_DECORATORS = {"lru_cache", "cache", "cached_property", "memoize"}
@@ -101,6 +101,7 @@ def run(an: Analysis, rep):
                     ("result shares mutable state: " + "; ".join(shared[:3])) if shared
                     else f"{n_obj} abstract objects reachable from the result, all allocated during the call", config=cfg)
     rep.run(r127, an, rep)
+    rep.run(r128, an, rep)
     from .common import SharedRules
     from . import c08
     rep.run(c08.r083, an, SharedRules(rep, "R12.5", "data built from a JSON document / code object keeps no reference to a mutable part of its argument (shared with C08's R08.3): "
@@ -181,3 +182,35 @@ def r127(an: Analysis, rep):
                         f"`{norm_src(c)[:60]}` changes a process-wide setting and nothing puts it back when the code in between raises: after one failing call (e.g. a rejected "
                         f"document) every later call of the API runs under a different setting and can give a different result for the same argument")
     rep.add("R12.7", "process-wide setters examined", True, "code_data/", f"{n} call(s) of {len(PROCESS_SETTERS)} known process-wide setters in the API closures", nontrivial=False)
+
+
+def r128(an: Analysis, rep):
+    """CPython's code constructor modifies tuples nested in co_consts IN PLACE (Objects/codeobject.c intern_string_constants: a string is
+    replaced by its interned copy, a frozenset holding strings by a new frozenset). A tuple of the argument handed to CodeType(...) as (part
+    of) a constant is therefore modified by to_code(): the CodeData changes under the caller (its frozensets list in another order)."""
+    import reference.contracts as C
+    from rules import c11
+    rep.rule("R12.8", "no tuple of the argument reaches the constants handed to CodeType(...) (CPython interns strings inside them in place)", 1)
+    for V in VERSIONS:
+        it, _ = an.interp("to_code", V)
+        calls = c11.codetype_calls(an, V)
+        if len(calls) != 1:
+            raise AnalysisError(f"expected exactly one live CodeType(...) call under {vname(V)}, found {len(calls)}")
+        f, call = calls[0]
+        slots = C.CODE_SLOTS[V]
+        if len(call.args) != len(slots):
+            raise AnalysisError("CodeType(...) arity not recognised")
+        cv = it.value_at(call.args[slots.index("consts")])
+        own = []
+        for a in it.elements(cv):
+            if a[0] != "src":
+                continue
+            t = an.tg.unfold_rec(it.src_type(a))
+            parts = list(t[1]) if t[0] == "union" else [t]
+            if any(an.tg.unfold_rec(x)[0] in ("tuple", "tuplefix") for x in parts):
+                own.append(a)
+        rep.add("R12.8", f"{f.qual}::constants handed to CodeType are not the argument's own tuples", not own, loc(f.module, call),
+                "every tuple among the constants is built during the call" if not own else
+                f"the constants handed to CodeType(...) include {fmt_atom(own[0])}, a tuple that belongs to the CodeData being encoded: CPython interns the strings inside constant tuples "
+                f"in place and replaces a frozenset holding strings by a new one, so to_code() changes its argument (afterwards to_json_data() lists the frozenset in another order)",
+                config=vname(V))
